@@ -372,6 +372,24 @@ pub fn cases(tier: &str, seed: u64, focus: &str) -> Vec<EncCase> {
         }
     }
 
+    // (3d) degenerate payloads under every mode set: empty input, bare macro envelopes, a single character
+    if focus != "C10" {
+        let mut bare05 = MACRO05_HEAD.to_vec();
+        bare05.extend_from_slice(MACRO_TRAIL);
+        let mut bare06 = MACRO06_HEAD.to_vec();
+        bare06.extend_from_slice(MACRO_TRAIL);
+        for modes in 0..64u8 {
+            for inp in [&b""[..], &bare05[..], &bare06[..], b"A", b"\x80", b"12"] {
+                if !thorough && focus != "C11" && modes % 4 != 1 && modes != 0 && modes != 62 {
+                    continue;
+                }
+                let list = if rng.chance(1, 2) { g.default.clone() } else { g.list(&mut rng, inp, false) };
+                out.push(EncCase { order: [0, 1, 2, 3], stratum: "degenerate", input: inp.to_vec(), modes, list, macros: rng.chance(3, 4), fnc1: rng.chance(1, 5),
+                                   eci: if rng.chance(1, 5) { *rng.pick(&ECI_LIST) } else { -1 } });
+            }
+        }
+    }
+
     // (4) envelope strings
     let mut bodies: Vec<Vec<u8>> = vec![vec![], b"A".to_vec(), b"12".to_vec(), b"ABC123".to_vec()];
     for s in all_strings(&SIGMA12, 2) {
